@@ -7,5 +7,6 @@ CONSTANTS W = 1
           RepW = 0
           Which = "all"
           MutualFull = FALSE
+          Repaired = {8, 9, 11}
 INVARIANTS L2Sound
 CHECK_DEADLOCK FALSE
